@@ -19,6 +19,7 @@ func init() {
 		Assumptions: []string{"select chooses a ready case", "context.WithTimeout cancels at the deadline"},
 		Run:         runC09,
 		Controls: []Control{
+			{Name: "backpressure-false-is-a-no-op", File: "pkg/resource/opt.go", Old: "func WithBackpressure(backpressure bool) ReadOption {\n", New: "func WithBackpressure(backpressure bool) ReadOption {\n\tif !backpressure {\n\t\treturn EmptyReadOption{}\n\t}\n", Expect: "R09.16"},
 			{Name: "timeout-returns-the-nil-update-error", File: "pkg/resource/value.go", Old: "\t\treturn nil, errors.New(\"bus.Send blocked for too long\")\n\t}\n\n\treturn newValue, err", New: "\t\treturn nil, err\n\t}\n\n\treturn newValue, err", Expect: "R09.4"},
 			{Name: "backpressure-on-by-default", File: "pkg/resource/opt.go", Old: "\trr := &ReadRequest{}\n", New: "\trr := &ReadRequest{Backpressure: true}\n", Expect: "R09.10"},
 			{Name: "timeout-tested-as-canceled", File: "pkg/resource/value.go", Old: "\tif errors.Is(ctx.Err(), context.DeadlineExceeded) {\n\t\treturn nil, errors.New(\"bus.Send blocked for too long\")\n", New: "\tif errors.Is(ctx.Err(), context.Canceled) {\n\t\treturn nil, errors.New(\"bus.Send blocked for too long\")\n", Expect: "R09.4"},
@@ -71,6 +72,8 @@ func runC09(c *an.Ctx) {
 	c.Min("R09.14", 2)
 	shareAs(c, "R10.5", "R09.15", r105, nil) // dead listeners are collected, live ones are kept: a subscriber that keeps receiving gets the most recent value (shared with R10.5)
 	c.Min("R09.15", 2)
+	r0916(c, "R09.16")
+	c.Min("R09.16", 2)
 	r0911(c, "R09.11")
 	c.Min("R09.11", 3)
 }
@@ -872,4 +875,65 @@ func r0911(c *an.Ctx, rule string) {
 		}
 		c.Check(bad == "", rule, name+"|the channel handed out is unbuffered", fn.Pos(), "", "the channel given to the subscriber has a buffer (made at "+bad+"): the forwarding goroutine parks events there and returns to the bus, so with backpressure a writer completes before the subscriber has received anything")
 	}
+}
+
+// r0916: an option does what its argument says for EVERY argument. The read options that carry a bool
+// (WithBackpressure, WithUpdatesOnly) return, on every path, the closure that stores that bool: returning a no-op for
+// the default value saves an allocation and breaks "the last option wins" - WithBackpressure(true) followed by
+// WithBackpressure(false) stays blocking, and an idle subscriber stalls the writer it asked not to stall.
+func r0916(c *an.Ctx, rule string) {
+	n := 0
+	for _, fn := range c.Prog.FuncsIn(resPkg) {
+		if fn.Parent() != nil || fn.Object() == nil || !fn.Object().Exported() || !strings.HasPrefix(fn.Name(), "With") || len(fn.Params) != 1 {
+			continue
+		}
+		if b, isB := fn.Params[0].Type().Underlying().(*types.Basic); !isB || b.Kind() != types.Bool {
+			continue
+		}
+		n++
+		ok := true
+		for _, r := range an.Returns(fn) {
+			if len(r.Results) != 1 {
+				continue
+			}
+			stores := false
+			var cands []ssa.Value
+			cands = append(cands, r.Results[0])
+			cands = append(cands, an.SourcesOpaque(r.Results[0])...)
+			cands = append(cands, an.Sources(r.Results[0])...)
+			for _, v := range cands {
+				var g *ssa.Function
+				if mc, isMC := v.(*ssa.MakeClosure); isMC {
+					g, _ = mc.Fn.(*ssa.Function)
+				} else {
+					g = an.ClosureFn(v)
+				}
+				if g == nil {
+					continue
+				}
+				an.Instrs(g, func(in ssa.Instruction) {
+					if st, isSt := in.(*ssa.Store); isSt {
+						vals := append([]ssa.Value{st.Val}, an.Sources(st.Val)...)
+						for _, s := range vals {
+							if fv, isFV := s.(*ssa.FreeVar); isFV && fv.Name() == fn.Params[0].Name() {
+								stores = true
+							}
+							if u, isU := s.(*ssa.UnOp); isU {
+								if fv, isFV := u.X.(*ssa.FreeVar); isFV && fv.Name() == fn.Params[0].Name() {
+									stores = true
+								}
+							}
+						}
+					}
+				})
+			}
+			if !stores {
+				ok = false
+			}
+		}
+		c.SawFunc(an.FuncName(fn))
+		c.Check(ok, rule, an.FuncName(fn)+"|stores its argument whatever it is", fn.Pos(), "every return is the closure that stores the parameter",
+			"for some argument the option returns something that does not store it (a no-op for the default value): a later option can no longer override an earlier one")
+	}
+	c.Count("bool_options", n)
 }
